@@ -365,11 +365,14 @@ def phase(tier="quick", verbose=False):
     return viol, cov
 
 
-THEOREM_NOTE = ("C07_conc (repaired micro-programs, every schedule, any number of threads and requests) / "
-                "C07_conc_refuted_orphan_join, C07_conc_refuted_double_remove, C07_conc_refuted_reissue (unrepaired micro-programs)")
+THEOREM_NOTE = ("concurrent clause: C07_conc, C07_conc_member_always, C07_conc_gauge_always, C10_conc_participant_ids_distinct (repaired "
+                "micro-programs, every schedule, any number of threads and requests) / C07_conc_refuted_orphan_join, "
+                "C07_conc_refuted_double_remove, C07_conc_refuted_reissue (micro-programs before the repair)")
 
 
-def run(tier="quick", replay=None):
+def run(tier="quick", replay=None, merge=True):
+    """the concurrent clause.  With merge=True (the C07 check) the coverage is merged into evidence/C07.json, which
+    the sequential part (l1check) has just written; otherwise a stand-alone evidence file C07conc.json is written."""
     t0 = time.time()
     if replay:
         return do_replay(replay)
@@ -398,20 +401,48 @@ def run(tier="quick", replay=None):
         for v in viol:
             C.violation(PID, v["replay"], no_input=True); rc = 1
             break
-    coverage = dict(cov, obligations=len(info["theorems"]), discharged=len(info["theorems"]) if info["ok"] else 0,
-                    theorems=info["theorems"], examples=info.get("examples", []),
-                    checker_cmd="bin/check C07 (checks/c07conc.py: tools/instrument + harness/l3 + oracle/conc; coqc Properties/C07conc.v)",
-                    trusted_base=C.TRUSTED_BASE + [
-                        "Print Assumptions of Properties/C07conc.v: %s" % ("closed under the global context (%d)" % info.get("closed", 0) if not info.get("axioms") else info["axioms"]),
-                        "tools/instrument (go/ast rewrite of x.Lock()/x.RLock() statements into scheduler yields) and verifsched (cooperative scheduler): scheduling points are exactly the lock acquisitions of models, websocket, modules/*; code between two acquisitions is taken as atomic",
-                        "harness/l3 classification of a critical section by its call chain (which models method) and oracle/conc/driver.ml",
-                        "modelled, not verified: SessionStore.Remove as one instruction placed at its inner acquisition (ids.Reuse under store.mutex); the Go memory model; fairness (a schedule is finite and complete)",
-                    ])
-    C.write_evidence("C07conc", tier, coverage,
-                     ["session-id and participant-id counters stay below 2^32 (g_cur + schedule length < 2^32 in the theorem)",
-                      "exploration is bounded (preemption bound %d); the theorem, not the exploration, covers all schedules" % cov.get("preemption_bound", 0),
-                      THEOREM_NOTE],
-                     time.time() - t0, [dict(v) for v in viol], level="proof")
+    tb = [
+        "Print Assumptions of Properties/C07conc.v: %s" % ("closed under the global context (%d)" % info.get("closed", 0) if not info.get("axioms") else info["axioms"]),
+        "tools/instrument (go/ast rewrite of x.Lock()/x.RLock() statements into scheduler yields) and verifsched (cooperative scheduler): scheduling points are exactly the lock acquisitions of models, websocket, modules/*; code between two acquisitions is taken as atomic",
+        "harness/l3 classification of a critical section by its call chain (which models method) and oracle/conc/driver.ml",
+        "modelled, not verified: SessionStore.Remove as one instruction placed at its inner acquisition (ids.Reuse under store.mutex); the Go memory model; fairness (a schedule is finite and complete)",
+    ]
+    assumptions = ["concurrent clause: session-id and participant-id counters stay below 2^32 (schedule length < 2^32 in the theorems)",
+                   "concurrent clause: the exploration is bounded (preemption bound %d); the theorems, not the exploration, cover all schedules" % cov.get("preemption_bound", 0),
+                   THEOREM_NOTE]
+    if not merge:
+        coverage = dict(cov, obligations=len(info["theorems"]), discharged=len(info["theorems"]) if info["ok"] else 0,
+                        theorems=info["theorems"], examples=info.get("examples", []),
+                        checker_cmd="bin/check C07 (checks/c07conc.py: tools/instrument + harness/l3 + oracle/conc; coqc Properties/C07conc.v)",
+                        trusted_base=C.TRUSTED_BASE + tb)
+        C.write_evidence("C07conc", tier, coverage, assumptions, time.time() - t0, [dict(v) for v in viol], level="proof")
+        return rc
+    edir = os.path.join(C.VERIF, "evidence") if not C.RTAG else os.path.join(C.WORK, "evidence" + C.RTAG)
+    ep = os.path.join(edir, "C07.json")
+    try:
+        ev = json.load(open(ep))
+    except Exception as e:
+        print("INTERNAL: the sequential part of C07 left no evidence file: %s" % e); return 2
+    c = ev["coverage"]
+    nt = len(info["theorems"])
+    c["obligations"] = c.get("obligations", 0) + nt
+    c["discharged"] = c.get("discharged", 0) + (nt if info["ok"] else 0)
+    c["theorems"] = c.get("theorems", []) + info["theorems"]
+    c["examples"] = c.get("examples", []) + info.get("examples", [])
+    c["trusted_base"] = c.get("trusted_base", []) + tb
+    c["checker_cmd"] = c.get("checker_cmd", "") + " && coqc -Q coq hagall coq/Properties/C07conc.v"
+    c["traces_validated_against_impl"] = c.get("traces_validated_against_impl", 0) + cov.get("traces_validated_against_impl", 0)
+    c["evaluations"] = c.get("evaluations", 0) + cov.get("evaluations", 0)
+    c["concurrent_clause"] = {k: v for k, v in cov.items() if k not in ("known_lines",)}
+    c["concurrent_clause"]["violations"] = [dict(v) for v in viol]
+    if cov.get("tie_broken"):
+        c["tie_broken"] = c.get("tie_broken", []) + ["concurrent clause: " + x for x in cov["tie_broken"]]
+    ev["assumptions"] = ev.get("assumptions", []) + assumptions
+    ev["violations"] = int(ev.get("violations", 0)) + (1 if rc else 0)
+    ev["wall_s"] = round(float(ev.get("wall_s", 0)) + time.time() - t0, 2)
+    tmp = ep + ".tmp"
+    json.dump(ev, open(tmp, "w"), indent=1)
+    os.replace(tmp, ep)
     return rc
 
 
